@@ -44,6 +44,10 @@ var (
 	oTrk     map[int]int
 	oExcess  map[int]int64
 	oNProp    int // proposals accepted in the open block
+	oCloseBlk map[int]int   // close proposals accepted in the open block, per target
+	oDouble  map[int]bool   // targets that got two close proposals in one block
+	oPrevSt  map[int]int    // status of every proposal after the previous block
+	oChg     bool // the used amount is recomputed at the end of the open block
 	oQueued  *hx.Violation // a second violation found at the same `end`, reported at the next op
 )
 
@@ -69,6 +73,7 @@ func oracle(t []string, out string) *hx.Violation {
 	switch t[0] {
 	case "reset":
 		oProps = map[int]*oProp{}
+		oDouble, oPrevSt = map[int]bool{}, map[int]int{}
 		oQueued = nil
 		oExcess = map[int]int64{}
 		if len(t) >= 8 {
@@ -81,6 +86,8 @@ func oracle(t []string, out string) *hx.Violation {
 	case "begin":
 		oWd, oTrk = map[int]int{}, map[int]int{}
 		oNProp = 0
+		oChg = false
+		oCloseBlk = map[int]int{}
 	case "propose":
 		if out == "accept" {
 			oNProp++
@@ -91,6 +98,17 @@ func oracle(t []string, out string) *hx.Violation {
 			}
 			oProps[int(i64(t[1]))] = p
 		}
+	case "close":
+		if out == "accept" {
+			oProps[int(i64(t[1]))] = &oProp{budgets: map[int]int64{}}
+			tg := int(i64(t[2]))
+			oCloseBlk[tg]++
+			if oCloseBlk[tg] >= 2 {
+				oDouble[tg] = true
+			}
+		}
+	case "chg":
+		oChg = true
 	case "withdraw", "withdraw0":
 		if out == "accept" {
 			oWd[int(i64(t[1]))]++
@@ -106,8 +124,9 @@ func oracle(t []string, out string) *hx.Violation {
 		}
 		cu := strings.Split(f[2], ":")
 		stage, used := i64(cu[0]), i64(cu[1])
-		var committed int64
+		var committed, unpaid int64
 		maxTrk := 0
+		doubleCloseNow := false
 		var viol *hx.Violation
 		for _, x := range f[4:] {
 			p := strings.Split(x, ":")
@@ -117,6 +136,10 @@ func oracle(t []string, out string) *hx.Violation {
 				continue
 			}
 			status, _ := strconv.Atoi(p[1])
+			if oDouble[id] && status == int(crstate.Terminated) && oPrevSt[id] != int(crstate.Terminated) {
+				doubleCloseNow = true
+			}
+			oPrevSt[id] = status
 			wable, wn, paid := parseStageList(p[2]), parseStageList(p[3]), i64(p[4])
 			var sumWn int64
 			for s, a := range wn {
@@ -141,18 +164,30 @@ func oracle(t []string, out string) *hx.Violation {
 			switch crstate.ProposalStatus(status) {
 			case crstate.Registered, crstate.CRAgreed, crstate.VoterAgreed:
 				committed += op.total
+				unpaid += op.total - sumWn
 			case crstate.Terminated, crstate.Finished:
-				for _, a := range wable {
+				for st, a := range wable {
 					committed += a
+					if _, done := wn[st]; !done {
+						unpaid += a
+					}
 				}
 			}
 			if oTrk[id] > maxTrk {
 				maxTrk = oTrk[id]
 			}
 		}
+		if oChg { // a committee change books what is still to be paid: it must not book less
+			oChg = false
+			if viol == nil && used < unpaid {
+				viol = &hx.Violation{Kind: "reset-understated", Detail: fmt.Sprintf(
+					"used=%d unpaid=%d: after the committee change CRCCommitteeUsedAmount is below the budgets still to be paid", used, unpaid)}
+			}
+			oUsed0 = used - committed // new base for the running comparison
+		}
 		if used-oUsed0 < committed {
 			v := &hx.Violation{Kind: "commitment-understated", Op: "end", Out: out, Detail: fmt.Sprintf(
-				"max_trackings_of_one_proposal_in_block=%d used=%d committed=%d: CRCCommitteeUsedAmount is below the budgets still owed", maxTrk, used-oUsed0, committed)}
+				"max_trackings_of_one_proposal_in_block=%d double_close_completed_in_block=%v used=%d committed=%d: CRCCommitteeUsedAmount is below the budgets still owed", maxTrk, doubleCloseNow, used-oUsed0, committed)}
 			oUsed0 -= committed - (used - oUsed0) // report each understatement once
 			if viol == nil {
 				viol = v
@@ -404,6 +439,32 @@ func (s *genState) randomTx() {
 				s.g.Emit("track %d t %d", id, st)
 			}
 		}
+	case 8:
+		if id, ps := s.pick(); ps != nil && (ps.Status == crstate.VoterAgreed || r.Chance(15)) && r.Chance(40) && len(ps.Proposal.Budgets) > 0 {
+			cid := s.next
+			s.next++
+			if s.g.Emit("close %d %d", cid, id) == "accept" {
+				s.ids = append(s.ids, cid)
+				if r.Chance(50) { // the target is finalized (or terminated) by its owner while the close proposal is pending
+					final := 0
+					for _, b := range ps.Proposal.Budgets {
+						if int(b.Stage) > final {
+							final = int(b.Stage)
+						}
+					}
+					if r.Chance(70) {
+						s.later = append(s.later, fmt.Sprintf("track %d f %d", id, final))
+					} else {
+						s.later = append(s.later, fmt.Sprintf("track %d t 0", id))
+					}
+				}
+				for m := 0; m < nMembers; m++ {
+					if r.Chance(90) {
+						s.later = append(s.later, fmt.Sprintf("review %d %d a", cid, m))
+					}
+				}
+			}
+		}
 	case 7:
 		s.g.Emit("fund %d", int64(r.Pick(500, 2000, 5000, 20000))*ela+int64(r.Intn(3)))
 	default:
@@ -444,6 +505,10 @@ func history(g *hx.Gen, r *hx.Rand, blocks int) {
 	}
 	s.h = 1
 	for b := 0; b < blocks; b++ {
+		if b > 8 && r.Chance(7) { // a committee change: the used amount is recomputed from the proposals
+			s.block(func() { s.g.Emit("chg") })
+			continue
+		}
 		s.block(func() {
 			n := r.Pick(0, 1, 1, 2, 3, 4)
 			for i := 0; i < n; i++ {
